@@ -110,8 +110,9 @@ func (e *C18) Run(ctx *core.Ctx, idx int) {
 	r := ctx.Rand
 	nn := 1 + r.Intn(4)
 	type nodeD struct {
-		Name   string
-		Labels map[string]string
+		Name     string
+		Labels   map[string]string
+		Cordoned bool // spec.unschedulable: daemon pods tolerate it, the node counts like any other
 	}
 	var nodes []nodeD
 	for i := 0; i < nn; i++ {
@@ -122,7 +123,7 @@ func (e *C18) Run(ctx *core.Ctx, idx int) {
 		if r.Intn(2) == 0 {
 			l["type"] = []string{"x", "y"}[r.Intn(2)]
 		}
-		nodes = append(nodes, nodeD{fmt.Sprintf("n%d", i), l})
+		nodes = append(nodes, nodeD{fmt.Sprintf("n%d", i), l, r.Intn(5) == 0})
 	}
 	ns := 1 + r.Intn(4)
 	if r.Intn(12) == 0 {
@@ -200,7 +201,12 @@ func (e *C18) Run(ctx *core.Ctx, idx int) {
 		simapi.SetNow(kit.T0)
 		s := simapi.NewStore()
 		for _, n := range nodes {
-			s.Inject(kit.Node(n.Name, n.Labels))
+			nd := kit.Node(n.Name, n.Labels)
+			nd.Spec.Unschedulable = n.Cordoned
+			if n.Cordoned {
+				nd.Spec.Taints = append(nd.Spec.Taints, corev1.Taint{Key: "node.kubernetes.io/unschedulable", Effect: corev1.TaintEffectNoSchedule})
+			}
+			s.Inject(nd)
 		}
 		mk := func(d c18Setting) *v1.ExtendedDaemonsetSetting {
 			st := &v1.ExtendedDaemonsetSetting{ObjectMeta: metav1.ObjectMeta{Name: d.Name, Namespace: d.NS, CreationTimestamp: metav1.NewTime(kit.T0.Add(d.Created))}}
